@@ -21,6 +21,7 @@ import lib
 F7_RESET = 'C01:reset-on-labelled-parent-attributeerror'
 F7_INFO = 'C01:info-on-labelled-parent-attributeerror'
 INT_SUM = 'C01:int-sum-after-reset'
+INT_BUCKET = 'C01:int-observation-bucket'
 
 KINDS = ('counter', 'gauge', 'summary', 'histogram', 'info', 'enum')
 METHODS = {'counter': ('inc', 'reset'), 'gauge': ('inc', 'dec', 'set'), 'summary': ('observe',),
@@ -67,6 +68,8 @@ def wire_list(xs, sep=','):
 
 
 def wire_op(op):
+    if op[0] == 'mutate':
+        return 'call/-/-/touch/-'          # not a library call: the model (which copies its arguments) sees nothing
     if op[0] == 'clear':
         return 'clear'
     if op[0] == 'remove':
@@ -118,24 +121,61 @@ def observe(reg):
     return out, seq
 
 
-def build_real(spec, reg):
+ALIAS_SIG = {'info': 'C01:info-dict-aliased', 'states': 'C01:enum-states-aliased', 'buckets': 'C01:histogram-buckets-aliased',
+             'labelnames': 'C01:labelnames-aliased'}
+
+
+def build_real(spec, reg, env):
+    """construct the metric; `env` keeps the caller-owned argument objects (labelnames / buckets / states lists, and
+    later every dict passed to info()) so that a history can mutate them AFTER the call"""
     import prometheus_client as pc
     cls = {'counter': pc.Counter, 'gauge': pc.Gauge, 'summary': pc.Summary, 'histogram': pc.Histogram,
            'info': pc.Info, 'enum': pc.Enum}[spec['kind']]
     kw = {}
+    env['labelnames'] = list(spec['labelnames'])
+    env['info'] = []
     if spec['kind'] == 'histogram':
-        kw['buckets'] = [py_of(b) for b in spec['buckets']]
+        kw['buckets'] = env['buckets'] = [py_of(b) for b in spec['buckets']]
     if spec['kind'] == 'enum':
-        kw['states'] = list(spec['states'])
-    return cls(spec['name'], 'doc', labelnames=list(spec['labelnames']), registry=reg, **kw)
+        kw['states'] = env['states'] = list(spec['states'])
+    return cls(spec['name'], 'doc', labelnames=env['labelnames'], registry=reg, **kw)
 
 
-def do_real(m, op):
+def do_mutate(env, op):
+    """['mutate', target, k, how, key, value]: the CALLER changes an object it passed to the library earlier"""
+    _, target, k, how, key, value = op
+    if target == 'info':
+        if not env['info']:
+            return
+        d = env['info'][k % len(env['info'])] if k >= 0 else env['info'][-1]
+        if how == 'set': d[key] = value
+        elif how == 'pop': d.pop(key, None)
+        elif how == 'clear': d.clear()
+        return
+    lst = env.get(target)
+    if lst is None:
+        return
+    if how == 'append': lst.append(py_of(value) if target == 'buckets' else value)
+    elif how == 'pop':
+        if lst: lst.pop()
+    elif how == 'clear': del lst[:]
+    elif how == 'reverse': lst.reverse()
+    elif how == 'set0':
+        if lst: lst[0] = py_of(value) if target == 'buckets' else value
+
+
+def do_real(m, op, env):
+    if op[0] == 'mutate':
+        return do_mutate(env, op)
     if op[0] == 'clear':
         return m.clear()
     if op[0] == 'remove':
         return m.remove(*[py_of(v) for v in op[1]])
     _, args, kws, act, arg = op
+    d = None
+    if act == 'info':
+        d = {k: v for k, v in arg}
+        env['info'].append(d)                  # the caller keeps its dict, whatever becomes of the call
     target = m
     if args is not None:
         target = m.labels(*[py_of(v) for v in args], **{k: py_of(v) for k, v in kw_dict(kws).items()})
@@ -147,7 +187,7 @@ def do_real(m, op):
     if act == 'state':
         return meth(arg)
     if act == 'info':
-        return meth({k: v for k, v in arg})
+        return meth(d)
     return meth()
 
 
@@ -160,7 +200,8 @@ def run_real(spec, ops):
     try:
         reg = CollectorRegistry()
         try:
-            m = build_real(spec, reg)
+            env = {}
+            m = build_real(spec, reg, env)
         except Exception as e:
             return ('err', type(e).__name__)
         obs, seq = observe(reg)
@@ -168,7 +209,7 @@ def run_real(spec, ops):
         seqs = [seq]
         for op in ops:
             try:
-                do_real(m, op)
+                do_real(m, op, env)
                 out = 'ok'
             except Exception as e:
                 out = type(e).__name__
@@ -251,6 +292,8 @@ class Ref:
     def apply(self, op, real_out):
         """-> (expected outcome or None, note).  Updates the histories by the calls that are accepted; for an
         unclassified call the real outcome decides whether it counts as accepted."""
+        if op[0] == 'mutate':
+            return 'ok', 'the caller mutates an object it passed earlier (the library holds copies)'
         if op[0] == 'clear':
             if not self.labelnames:
                 return None, 'clear() on a metric declared without labels'
@@ -346,7 +389,7 @@ class Ref:
         return out
 
 
-def oracle(spec, ops, real):
+def oracle(spec, ops, real, classify_alias=True):
     """-> list of (signature, description, step index) of oracle failures on the real code's run"""
     fails = []
     if real[0] != 'ok':
@@ -386,12 +429,23 @@ def oracle(spec, ops, real):
                 fails.append(('C01:rejected-call-mutated', 'step %d %r raised %s and changed the exposed samples: %s'
                               % (i, op, out, diff(obs, want)), i + 1))
             else:
-                sig = INT_SUM if int_after_reset(spec, ops[:i + 1]) else 'C01:value-mismatch'
+                sig = (INT_SUM if int_after_reset(spec, ops[:i + 1]) else
+                       INT_BUCKET if int_obs_on_boundary(spec, ops[:i + 1]) else 'C01:value-mismatch')
                 fails.append((sig, 'after step %d %r collect differs from the reference (left-to-right floating-point sums): %s'
                               % (i, op, diff(obs, want)), i + 1))
         prev = obs
         if fails:
             break                                   # later steps depend on the diverged state
+    if fails and classify_alias:
+        targets = [op[1] for op in ops[:fails[0][2]] if op[0] == 'mutate']
+        if targets:
+            # does the failure need the caller's mutation?  (the same history without the mutations of one kind of object)
+            for tgt in dict.fromkeys(reversed(targets)):
+                plain = [op for op in ops if not (op[0] == 'mutate' and op[1] == tgt)]
+                if not oracle(spec, plain, run_real(spec, plain), classify_alias=False):
+                    fails = [(ALIAS_SIG[tgt], 'the caller mutated the %s object it had passed to the library and the exposed '
+                              'samples / outcomes changed with no call on the metric: %s' % (tgt, w), st) for _, w, st in fails]
+                    break
     return fails
 
 
@@ -407,6 +461,40 @@ def int_after_reset(spec, ops):
             seen_reset = True
         elif op[3] == 'inc' and seen_reset and op[4][0] in ('i', 'b'):
             return True
+    return False
+
+
+def inexact_down(n):
+    """an int whose nearest double lies BELOW it: float(n) <= b does not decide n <= b for the bound b == float(n)"""
+    return isinstance(n, int) and not isinstance(n, bool) and abs(n) < 2 ** 1000 and float(n) < n
+
+
+def prepared_bounds(spec):
+    bs = [float(py_of(b)) for b in spec.get('buckets', [])]
+    if bs and bs[-1] != INF:
+        bs.append(INF)
+    return bs
+
+
+def int_obs_on_boundary(spec, ops):
+    """a histogram history with an int observation that is no double"""
+    if spec['kind'] != 'histogram':
+        return False
+    return any(op[0] == 'call' and op[3] == 'observe' and op[4][0] == 'i' and float(int(op[4][1])) != int(op[4][1]) for op in ops)
+
+
+def model_blind(spec, ops):
+    """The Lean model receives float(amount).  Python compares an int observation with a float bound EXACTLY; the two agree
+    for every bound except b == float(n) when float(n) < n (n rounds DOWN onto the bound).  Such histories are judged by
+    the oracle (exact comparison) only and are not sent to the model."""
+    if spec['kind'] != 'histogram':
+        return False
+    bs = None
+    for op in ops:
+        if op[0] == 'call' and op[3] == 'observe' and op[4][0] == 'i' and inexact_down(int(op[4][1])):
+            bs = prepared_bounds(spec) if bs is None else bs
+            if float(int(op[4][1])) in bs:
+                return True
     return False
 
 
@@ -448,7 +536,8 @@ NEG = [-1.0, -0.5, -1e300, -5e-324, -0.0, -2.0 ** 53]
 SPECIAL = [INF, -INF, float('nan')]
 INTS = [0, 1, 2, 7, 2 ** 53, 2 ** 60, -3, -1, 1000000]
 # ints that are NOT exactly representable as a double: float + int and float(int) round them to the nearest double, which
-# is what the model receives.  Not for Histogram.observe: `amount <= bound` compares an int with a float exactly.
+# is what the model receives.  In Histogram.observe `amount <= bound` compares the int with the float bound exactly: the oracle
+# does the same; see model_blind() for the one case the float(n) model cannot express.
 INTS_INEXACT = [2 ** 53 + 1, 10 ** 17 + 1, -(2 ** 60) + 3, 2 ** 53 + 3, 3 * 2 ** 53 + 1, 10 ** 22 + 7, -(2 ** 53) - 1, 1]
 BOOLS = [True, False]
 
@@ -460,7 +549,8 @@ LABEL_VALUES = [['s', 'a'], ['s', 'b'], ['s', ''], ['s', '1'], ['i', 1], ['s', '
                 ['s', 'None'], ['n'], ['s', '1.0'], F(1.0), F(0.1), ['s', '0.1'], ['i', 0], ['i', -5], ['s', '-5'],
                 ['i', 10 ** 20], ['s', 'é ü'], ['s', 'x\ny'], ['s', 'a"b\\'], F(INF), ['s', 'inf'], F(float('nan')),
                 ['s', 'nan'], F(1e16), F(-0.0), ['s', '温'], ['s', 'a'], ['s', 'b'], ['s', 'c']]
-BOUND_POOL = [-10.0, -2.5, -1.0, -0.0, 0.0, 5e-324, 0.005, 0.1, 0.5, 1.0, 2.5, 10.0, 1e6, 1e16, 2.0 ** 53, 1e300]
+BOUND_POOL = [-10.0, -2.5, -1.0, -0.0, 0.0, 5e-324, 0.005, 0.1, 0.5, 1.0, 2.5, 10.0, 1e6, 1e16, 2.0 ** 53, 1e17, 1e22, 1e300,
+              -(2.0 ** 53), 2.0 ** 53, 1e17]
 
 
 def tag_amount(x):
@@ -469,10 +559,14 @@ def tag_amount(x):
     return F(x)
 
 
-def gen_amount(rng, bounds=None, for_dec=False, inexact=False):
+def gen_amount(rng, bounds=None, for_dec=False, inexact=False, bound_ints=False):
     r = rng.random()
     if bounds and r < 0.3:
         x = rng.choice(bounds)
+        if bound_ints and math.isfinite(x) and abs(x) >= 2.0 ** 53 and abs(x) < 1e30 and rng.random() < 0.6:
+            # an INT around a bound that ints no longer fill: 2**53 +- k, 10**17 +- k, 10**22 +- k.  Python compares it with
+            # the float bound exactly, and adds float(n) to the sum
+            return ['i', int(x) + rng.choice([-17, -3, -2, -1, 0, 1, 2, 3, 9, 17, 1025])]
         if rng.random() < 0.3:
             x = math.nextafter(x, rng.choice([INF, -INF]))
         return F(x)
@@ -571,7 +665,7 @@ def restring(rng, v):
     return rng.choice(alts)
 
 
-def gen_action(rng, spec):
+def gen_action(rng, spec, extended=False):
     kind = spec['kind']
     if rng.random() < 0.03:
         act = rng.choice(['inc', 'dec', 'set', 'observe', 'reset', 'state', 'info'])     # maybe not a method of the class
@@ -582,7 +676,9 @@ def gen_action(rng, spec):
         if kind == 'counter' and act == 'reset' and rng.random() < 0.5:
             act = 'inc'                              # reset about a quarter of the counter calls
     if act in ('inc', 'dec', 'set', 'observe'):
-        return act, gen_amount(rng, spec_bounds(spec), for_dec=(act == 'dec'), inexact=(kind != 'histogram'))
+        hist = kind == 'histogram'
+        return act, gen_amount(rng, spec_bounds(spec), for_dec=(act == 'dec'), inexact=(extended or not hist),
+                               bound_ints=(extended and hist))
     if act == 'state':
         sts = spec.get('states') or ['x']
         return act, (rng.choice(sts) if rng.random() < 0.85 else rng.choice(['nope', '', 'Starting']))
@@ -593,13 +689,51 @@ def gen_action(rng, spec):
     return act, None
 
 
-def gen_history(rng, spec, length):
+# Objects the caller may go on mutating after handing them to the library.  `info` dicts and the `labelnames` list are
+# copied by the library.  The `states` list of Enum and the `buckets` list of a LABELLED Histogram are kept by reference
+# (self._states / self._kwargs) — a confirmed defect of the unchanged tree: their generation is switched on by
+# VERIF_C01_CTOR_ALIAS=1 (or once the signatures are listed in known_findings.json / the library copies them).
+def alias_targets(spec):
+    import os
+    ts = ['labelnames']
+    if spec['kind'] == 'info':
+        ts += ['info', 'info', 'info']
+    on = os.environ.get('VERIF_C01_CTOR_ALIAS', '') == '1' or any(
+        k.get('property') == 'C01' and k.get('signature') in (ALIAS_SIG['states'], ALIAS_SIG['buckets'])
+        for k in lib.load_known().get('findings', []))
+    if on and spec['kind'] == 'enum':
+        ts += ['states', 'states']
+    if on and spec['kind'] == 'histogram':
+        ts += ['buckets', 'buckets']
+    return ts
+
+
+def gen_mutate(rng, spec):
+    target = rng.choice(alias_targets(spec))
+    if target == 'info':
+        how = rng.choice(['set', 'set', 'pop', 'clear'])
+        return ['mutate', 'info', rng.choice([-1, -1, 0, 1, 2]), how, rng.choice(['version', 'build', 'zz', 'é']),
+                rng.choice(['9', '', 'x'])]
+    how = rng.choice(['append', 'append', 'pop', 'clear', 'reverse', 'set0'])
+    if target == 'buckets':
+        value = F(rng.choice(BOUND_POOL))
+    else:
+        value = rng.choice(['zz', 'running', 'l', 'é'])
+    return ['mutate', target, -1, how, None, value]
+
+
+def gen_history(rng, spec, length, extended=False):
+    """`extended` (C01's own run): also caller-side mutations of objects passed earlier (6-field 'mutate' ops) and int
+    observations that are no doubles around histogram bounds; other properties that reuse this generator get neither"""
     ops = []
     live = []
     n = len(spec['labelnames'])
+    p_mut = (0.12 if spec['kind'] == 'info' else 0.03) if extended else 0.0
     for _ in range(length):
         r = rng.random()
-        if r < 0.07:
+        if rng.random() < p_mut:
+            ops.append(gen_mutate(rng, spec))
+        elif r < 0.07:
             ops.append(['clear'])
         elif r < 0.2:
             if live and rng.random() < 0.7:
@@ -612,7 +746,7 @@ def gen_history(rng, spec, length):
                 vals = [[rng.choice(['t', 'l']), vals]]
             ops.append(['remove', vals])
         else:
-            act, arg = gen_action(rng, spec)
+            act, arg = gen_action(rng, spec, extended)
             if (n == 0 and rng.random() < 0.9) or (n > 0 and rng.random() < 0.06):
                 ops.append(['call', None, None, act, arg])
             else:
@@ -624,7 +758,7 @@ def gen_history(rng, spec, length):
     return ops
 
 
-def alphabet(kind):
+def alphabet(kind, extended=False):
     """a 13-op alphabet on the fixed registry  <kind>('m', labelnames=['l','k'])  (two labels, so that keyword order,
     removal of one of two children sharing a label value, and stringification all matter)"""
     A = [['s', 'a'], ['s', '1']]            # child (a,1)
@@ -657,6 +791,9 @@ def alphabet(kind):
     ops.append(['clear'])
     ops.append(call(A, [], 'touch', None))
     ops.append(call([['t', A]], [], *acts[0]))                              # both values as ONE tuple: wrong count
+    if kind == 'info' and extended:
+        ops.append(['mutate', 'info', -1, 'set', 'zz', '9'])                # the caller reuses the dict it passed last
+        ops.append(['mutate', 'info', 0, 'clear', None, None])              # ... or the one it passed first
     return ops
 
 
@@ -669,7 +806,7 @@ def fixed_spec(kind, labelnames):
     return spec
 
 
-def alphabet0(kind):
+def alphabet0(kind, extended=False):
     """alphabet on the unlabelled registry <kind>('m')"""
     ops = []
     for op in alphabet(kind)[:5]:
@@ -678,6 +815,9 @@ def alphabet0(kind):
     ops.append(['call', [['s', 'a']], [], 'touch', None])
     ops.append(['remove', []])
     ops.append(['clear'])
+    if kind == 'info' and extended:
+        ops.append(['mutate', 'info', -1, 'set', 'zz', '9'])
+        ops.append(['mutate', 'info', 0, 'clear', None, None])
     return ops
 
 
@@ -736,6 +876,28 @@ CORPUS = [
       ['call', [['t', [['s', 'a']]], ['l', [['s', 'b']]]], [], 'inc', F(2.0)],
       ['call', [], [['k', ['s', "['b']"]], ['l', ['s', "('a',)"]]], 'inc', F(4.0)],
       ['remove', [['t', [['s', 'a'], ['s', 'b']]]]], ['remove', [['s', "('a',)"], ['l', [['s', 'b']]]]]]),
+    # the caller keeps mutating what it passed: info() installs a COPY, the constructors copy labelnames
+    ({'kind': 'info', 'name': 'm', 'labelnames': [], 'legacy': True},
+     [['call', None, None, 'info', [['a', '1']]], ['mutate', 'info', -1, 'set', 'b', '2'], ['mutate', 'info', -1, 'set', 'a', 'x'],
+      ['mutate', 'info', -1, 'clear', None, None], ['call', None, None, 'info', [['c', '3']]], ['mutate', 'info', 0, 'set', 'q', '1'],
+      ['mutate', 'info', 1, 'pop', 'c', None]]),
+    ({'kind': 'info', 'name': 'm', 'labelnames': ['l'], 'legacy': True},
+     [['call', [['s', 'x']], [], 'info', [['a', '1']]], ['mutate', 'info', -1, 'set', 'l', 'clash'], ['call', [['s', 'y']], [], 'info', [['a', '2']]],
+      ['mutate', 'info', 0, 'clear', None, None], ['mutate', 'labelnames', -1, 'append', None, 'k'], ['call', [['s', 'z']], [], 'info', []]]),
+    ({'kind': 'counter', 'name': 'm', 'labelnames': ['l'], 'legacy': True},
+     [['mutate', 'labelnames', -1, 'append', None, 'k'], ['call', [['s', 'x']], [], 'inc', F(1.0)], ['mutate', 'labelnames', -1, 'clear', None, None],
+      ['call', [], [['l', ['s', 'x']]], 'inc', F(1.0)]]),
+    # int observations that are no doubles, around bounds ints no longer fill: compared EXACTLY with the float bound
+    ({'kind': 'histogram', 'name': 'm', 'labelnames': [], 'legacy': True, 'buckets': [F(2.0 ** 53), F(1e17), F(1e22)]},
+     [['call', None, None, 'observe', ['i', 10 ** 17 + 3]], ['call', None, None, 'observe', ['i', 10 ** 17 - 3]],
+      ['call', None, None, 'observe', ['i', 2 ** 53 + 1]], ['call', None, None, 'observe', ['i', 2 ** 53 - 1]],
+      ['call', None, None, 'observe', ['i', 10 ** 22 + 7]], ['call', None, None, 'observe', ['i', 10 ** 22 - 7]],
+      ['call', None, None, 'observe', ['i', 10 ** 17]], ['call', None, None, 'observe', ['i', 2 ** 53 + 2]]]),
+    ({'kind': 'histogram', 'name': 'm', 'labelnames': ['l'], 'legacy': True, 'buckets': [F(1.0), F(1e17)]},
+     [['call', [['s', 'a']], [], 'observe', ['i', 10 ** 17 + 3]], ['call', [['s', 'a']], [], 'observe', ['i', 10 ** 17 + 9]],
+      ['call', [['s', 'a']], [], 'observe', F(1e17)]]),
+    ({'kind': 'summary', 'name': 'm', 'labelnames': [], 'legacy': True},
+     [['call', None, None, 'observe', ['i', 10 ** 17 + 3]], ['call', None, None, 'observe', ['i', 10 ** 22 + 7]]]),
     # enum / info
     ({'kind': 'enum', 'name': 'm', 'labelnames': ['l'], 'legacy': True, 'states': ['a', 'b']},
      [['call', [['s', 'x']], [], 'state', 'b'], ['call', [['s', 'x']], [], 'state', 'zz'], ['call', None, None, 'state', 'a']]),
@@ -799,6 +961,10 @@ class Batch:
     def flush(self):
         ctx = self.ctx
         cases, self.cases = self.cases, []
+        blind = [c for c in cases if model_blind(c[0], c[1])]
+        if blind:
+            ctx.count('t2-skipped:int-observation-rounds-down-onto-a-bound', len(blind))
+            cases = [c for c in cases if not model_blind(c[0], c[1])]
         replies = driver_run(ctx, [wire_line(spec, ops) for spec, ops, _ in cases])
         if replies is None:
             return
@@ -880,12 +1046,12 @@ def run(ctx):
     # exhaustive over the small alphabets
     depth = 4 if ctx.tier == 'thorough' else 3
     for kind in KINDS:
-        al = alphabet(kind)
+        al = alphabet(kind, extended=True)
         spec = fixed_spec(kind, ['l', 'k'])
         for word in itertools.product(range(len(al)), repeat=depth):
             b.add(spec, [al[i] for i in word], 'exhaustive')
         b.flush()
-        al0 = alphabet0(kind)
+        al0 = alphabet0(kind, extended=True)
         spec0 = fixed_spec(kind, [])
         for word in itertools.product(range(len(al0)), repeat=3):
             b.add(spec0, [al0[i] for i in word], 'exhaustive')
@@ -898,12 +1064,12 @@ def run(ctx):
         n_short, n_long = n_short * 3, n_long * 2
     for i in range(n_short):
         spec = gen_spec(rng)
-        b.add(spec, gen_history(rng, spec, rng.choice([1, 2, 3, 5, 8, 12, 20])), 'random-short')
+        b.add(spec, gen_history(rng, spec, rng.choice([1, 2, 3, 5, 8, 12, 20]), extended=True), 'random-short')
         if len(b.cases) >= 500:
             b.flush()
     for i in range(n_long):
         spec = gen_spec(rng)
-        b.add(spec, gen_history(rng, spec, rng.choice([50, 100, 200])), 'random-long')
+        b.add(spec, gen_history(rng, spec, rng.choice([50, 100, 200]), extended=True), 'random-long')
         if len(b.cases) >= 100:
             b.flush()
     b.flush()
